@@ -118,10 +118,11 @@ def gen_target(rng):
         return rng.choice(["/metadata/%2e%2e/x", "/me%74adata", "/a/%2E%2E/b", base + "/%2e.", base + "?x=%2e%2e"]), "percent"
     if c < 0.88:
         return base.upper() + rng.choice(["", "?Comp=GOALSTATE"]), "upper"
-    if c < 0.94:
+    if c < 0.92:
         return rng.choice(["http://168.63.129.16%s?comp=goalstate" % base, "http://h/provision", "http://h/a/../b",
                            "http://169.254.169.254" + base]), "absolute-form"
-    return rng.choice(["/machine/?comp=telemetrydata", "/vmagentlog", "/vmAgentLog"]), "skip-sig"
+    return rng.choice(["/machine/?comp=telemetrydata", "/vmagentlog", "/vmAgentLog", "/MACHINE/?COMP=TelemetryData",
+                       "/VMAGENTLOG"]), "skip-sig"
 
 
 def gen_request(rng, rid, last=True):
@@ -129,8 +130,9 @@ def gen_request(rng, rid, last=True):
     after answering a request whose body the handler did not read, so later requests would never be seen"""
     target, cls = gen_target(rng)
     method = rng.choice(["GET", "GET", "GET", "POST", "PUT", "HEAD", "DELETE"])
-    if cls == "skip-sig":
-        method = rng.choice(["POST", "PUT"])
+    if cls == "skip-sig":      # mostly the exempt (method, url) pairing itself, sometimes the crossed one
+        right = "POST" if "telemetrydata" in target.lower() else "PUT"
+        method = right if rng.random() < 0.8 else ("PUT" if right == "POST" else "POST")
     headers = [("x-verif-id", rid)]
     metadata = rng.random() < 0.5
     if metadata:
@@ -142,7 +144,28 @@ def gen_request(rng, rid, last=True):
         if body and rng.random() < 0.3:
             chunked = [rng.choice([1, 5, 64])]
     raw = e2e.http_request(method, target, headers, body, chunked=chunked)
-    return {"id": rid, "method": method, "target": target, "class": cls, "metadata": metadata, "raw": raw}
+    return {"id": rid, "method": method, "target": target, "class": cls, "metadata": metadata, "raw": raw, "ops_after": []}
+
+
+DENY_ALL = {"defaultAccess": "deny", "mode": "enforce", "id": "deny"}
+ALLOW_ALL = {"defaultAccess": "allow", "mode": "enforce", "id": "allow"}
+
+
+def finalize_case(case):
+    """record, per request, the state in force when it is sent: rules per endpoint, dead actors"""
+    rules = dict(case["rules"])
+    kk_dead = as_dead = False
+    for rq in case["requests"]:
+        rq["env"] = {"rules": dict(rules), "kk_dead": kk_dead, "as_dead": as_dead}
+        for op in rq.get("ops_after", []):
+            if op["op"] == "set_rules":
+                rules[op["endpoint"]] = op["item"]
+            elif op["op"] == "kill_actor" and op["actor"] == "key_keeper":
+                kk_dead = True
+            elif op["op"] == "kill_actor" and op["actor"] == "agent_status":
+                as_dead = True
+    case["killable"] = sorted({op["actor"] for rq in case["requests"] for op in rq.get("ops_after", []) if op["op"] == "kill_actor"})
+    return case
 
 
 def gen_case(rng, n, pools):
@@ -162,15 +185,35 @@ def gen_case(rng, n, pools):
             case["rules"][ep] = gen_item(rng, users, groups, procs, exes)
         else:
             case["rules"][ep] = None
-    k = rng.choice([1, 1, 1, 2, 3])
+    k = rng.choice([1, 1, 1, 2, 2, 3])
     case["requests"] = [gen_request(rng, "%d-%d" % (n, j), last=(j == k - 1)) for j in range(k)]
+    # the policy (or the key keeper itself) changes while the keep-alive connection is open
+    killed = False
+    for j in range(k - 1):
+        r = rng.random()
+        if killed:
+            break                     # a dead key keeper cannot take new rules; one kill per connection
+        if r < 0.55:
+            ep = ENDPOINT_OF.get(dest) if rng.random() < 0.8 else None
+            ep = ep or rng.choice(["wireserver", "hostga", "imds"])
+            item = rng.choice([DENY_ALL, DENY_ALL, ALLOW_ALL, None, gen_item(rng, users, groups, procs, exes)])
+            case["requests"][j]["ops_after"].append({"op": "set_rules", "endpoint": ep, "item": item})
+        elif r < 0.65:
+            case["requests"][j]["ops_after"].append({"op": "kill_actor", "actor": "key_keeper"})
+            killed = True
+        elif r < 0.68:
+            case["requests"][j]["ops_after"].append({"op": "kill_actor", "actor": "agent_status"})
+            killed = True
     case["proxy_port"] = None
-    return case
+    return finalize_case(case)
 
 
 def scenario_of(case):
-    sc = e2e.scenario(case["n"], [e2e.conn([r["raw"] for r in case["requests"]], audit=case["record"])],
+    reqs = [e2e.req(r["raw"], ops_after=r["ops_after"]) if r.get("ops_after") else e2e.req(r["raw"]) for r in case["requests"]]
+    sc = e2e.scenario(case["n"], [e2e.conn(reqs, audit=case["record"])],
                       rules=case["rules"], default_reply={"status": MOCK_STATUS, "reason": "Mock", "body": "mock-ok"})
+    if case.get("killable"):
+        sc["killable"] = case["killable"]
     if case["proxy_port"]:
         sc["proxy_port"] = case["proxy_port"]
     return sc
@@ -304,8 +347,12 @@ def ip_net(ip):
 
 
 def coq_case(case, req, claims, port):
-    env = "{| e_counter_ok := true; e_claims_json_ok := (fun _ => true); e_ws := %s; e_ga := %s; e_imds := %s |}" % (
-        coq_item(case["rules"]["wireserver"]), coq_item(case["rules"]["hostga"]), coq_item(case["rules"]["imds"]))
+    st = req["env"]                   # what is in force when THIS request is sent
+
+    def getter(ep):
+        return "RErr" if st["kk_dead"] else coq_item(st["rules"][ep])
+    env = "{| e_counter_ok := %s; e_claims_json_ok := (fun _ => true); e_ws := %s; e_ga := %s; e_imds := %s |}" % (
+        "false" if st["as_dead"] else "true", getter("wireserver"), getter("hostga"), getter("imds"))
     if case["record"] is None:
         amap = "[]"
     else:
@@ -371,17 +418,25 @@ def run(ctx):
     # hand-made corners, always present
     fixed = []
 
-    def add(record, rules, targets, method="GET", metadata=False):
+    def add(record, rules, targets, method="GET", metadata=False, ops=None, cls="fixed", body=b""):
         n = len(cases) + len(fixed)
         reqs = []
         for j, t in enumerate(targets):
             rid = "%d-%d" % (n, j)
             hs = [("x-verif-id", rid)] + ([("Metadata", "true")] if metadata else [])
-            reqs.append({"id": rid, "method": method, "target": t, "class": "fixed", "metadata": metadata,
-                         "raw": e2e.http_request(method, t, hs)})
-        fixed.append({"n": n, "record": record, "dest": ("%s:%d" % (record["dest_ip"], record["dest_port"])) if record else None,
-                      "rules": dict({"wireserver": None, "hostga": None, "imds": None}, **rules), "requests": reqs, "proxy_port": None})
+            reqs.append({"id": rid, "method": method, "target": t, "class": cls, "metadata": metadata,
+                         "raw": e2e.http_request(method, t, hs, body if j == len(targets) - 1 else b""),
+                         "ops_after": list((ops or {}).get(j, []))})
+        fixed.append(finalize_case({"n": n, "record": record,
+                                    "dest": ("%s:%d" % (record["dest_ip"], record["dest_port"])) if record else None,
+                                    "rules": dict({"wireserver": None, "hostga": None, "imds": None}, **rules),
+                                    "requests": reqs, "proxy_port": None}))
         return fixed[-1]
+
+    def setr(ep, item):
+        return {"op": "set_rules", "endpoint": ep, "item": item}
+    kill_kk = {"op": "kill_actor", "actor": "key_keeper"}
+    kill_as = {"op": "kill_actor", "actor": "agent_status"}
     deny = {"defaultAccess": "deny", "mode": "enforce", "id": "deny"}
     audit_deny = {"defaultAccess": "deny", "mode": "audit", "id": "audit"}
     by_url = {"defaultAccess": "deny", "mode": "enforce", "id": "by-url", "rules": {
@@ -400,6 +455,32 @@ def run(ctx):
     add(e2e.audit(e2e.WIRESERVER, uid=0, is_admin=0), {}, ["/machine"])           # uid 0 but not flagged elevated
     add(e2e.audit(e2e.HOSTGA, uid=e2e.NOBODY_UID, is_admin=1), {}, ["/machine"])   # flagged elevated
     add(e2e.audit(e2e.HOSTGA, uid=0, is_admin=2), {}, ["/machine"])                # is_admin == 1 is the test
+    # the policy changes while a keep-alive connection is open: every request is judged by what is in force THEN
+    mi = "/metadata/instance"
+    add(e2e.audit(e2e.IMDS, uid=0), {}, [mi, mi, mi], ops={0: [setr("imds", deny)], 1: [setr("imds", None)]}, cls="policy-change")
+    add(e2e.audit(e2e.IMDS, uid=e2e.NOBODY_UID), {"imds": ALLOW_ALL}, [mi, mi], ops={0: [setr("imds", by_url)]}, cls="policy-change")
+    add(e2e.audit(e2e.IMDS, uid=0), {"imds": by_url}, [mi, mi], ops={0: [setr("imds", dict(by_url, id="v2", rules=dict(by_url["rules"], identities=[{"name": "i", "userName": "nobody"}])))]}, cls="policy-change")
+    add(e2e.audit(e2e.IMDS, uid=0), {"imds": deny}, [mi, mi, mi], ops={0: [setr("imds", audit_deny)], 1: [setr("imds", deny)]}, cls="policy-change")
+    add(e2e.audit(e2e.WIRESERVER, uid=0), {}, ["/machine", "/machine"], ops={0: [setr("wireserver", deny)]}, cls="policy-change")
+    add(e2e.audit(e2e.HOSTGA, uid=0), {"hostga": deny}, ["/machine", "/machine"], ops={0: [setr("hostga", None)]}, cls="policy-change")
+    add(e2e.audit(e2e.OTHER, uid=5), {}, ["/x", "/x"], ops={0: [setr("imds", deny), setr("wireserver", deny)]}, cls="policy-change")
+    # the policy lookup fails (key keeper actor dead) / the connection counter fails (agent status actor dead)
+    for d in (e2e.WIRESERVER, e2e.HOSTGA, e2e.IMDS, e2e.OTHER, e2e.SELF):
+        add(e2e.audit(d, uid=0), {}, ["/machine", "/machine", "/a/../b"], ops={0: [kill_kk]}, cls="lookup-failure")
+        add(e2e.audit(d, uid=0), {"wireserver": ALLOW_ALL, "hostga": ALLOW_ALL, "imds": ALLOW_ALL}, ["/machine", "/machine"], ops={0: [kill_kk]}, cls="lookup-failure")
+    add(None, {}, ["/machine", "/machine", "/provision"], ops={0: [kill_kk]}, metadata=True, cls="lookup-failure")
+    add(e2e.audit(e2e.IMDS, uid=0), {}, ["/machine", "/machine", "/provision"], ops={0: [kill_as]}, metadata=True, cls="counter-failure")
+    add(e2e.audit(e2e.OTHER, uid=0), {}, ["/machine", "/machine"], ops={0: [kill_as]}, cls="counter-failure")
+    # the signature-exempt (method, url) pairs (regenerated from should_skip_sig) are mediated like everything else
+    import gen_consts
+    skip_pairs = gen_consts.generate()[3]
+    for m_, u_ in skip_pairs:
+        for t in (u_, u_.upper(), u_.title(), u_ + "&x=1" if "?" in u_ else u_ + "/x"):
+            for rec, rl in ((e2e.audit(e2e.WIRESERVER, uid=e2e.NOBODY_UID), {}), (e2e.audit(e2e.HOSTGA, uid=e2e.NOBODY_UID), {}),
+                            (e2e.audit(e2e.SELF, uid=0), {}), (e2e.audit(e2e.IMDS, uid=0), {"imds": deny}),
+                            (e2e.audit(e2e.WIRESERVER, uid=0), {"wireserver": deny}), (None, {}),
+                            (e2e.audit(e2e.WIRESERVER, uid=0), {}), (e2e.audit(e2e.IMDS, uid=e2e.NOBODY_UID), {"imds": audit_deny})):
+                add(rec, rl, [t], method=m_, cls="skip-sig-pair", body=b"payload-0123456789")
     self_case = add(e2e.audit(e2e.SELF, uid=0), {}, ["/machine", "/provision"], metadata=True)
     self_case["proxy_port"] = 3080                                                # the listener really is the destination
     cases += fixed
@@ -413,6 +494,7 @@ def run(ctx):
     for ci, (case, res) in enumerate(zip(cases, results)):
         if not res.get("ok"):
             raise RuntimeError("e2e scenario %r failed in the driver: %s" % (case["n"], res.get("error")))
+        case["counter_dead"] = any(rq["env"]["as_dead"] for rq in case["requests"]) or "agent_status" in case.get("killable", [])
         a = case["record"]
         if a is None:
             claims = {"user": "", "groups": [], "proc": "", "exe": ""}
@@ -449,7 +531,8 @@ def run(ctx):
     for ci, (case, res) in enumerate(zip(cases, results)):
         obs, stray_bytes, unknown = observe(case, res)
         brief = {"n": case["n"], "record": case["record"], "rules": case["rules"], "proxy_port": case["proxy_port"],
-                 "requests": [{k: (v.decode("latin-1") if isinstance(v, bytes) else v) for k, v in r.items()} for r in case["requests"]]}
+                 "requests": [{k: (v.decode("latin-1") if isinstance(v, bytes) else v) for k, v in r.items() if k != "env"} for r in case["requests"]],
+                 "note": "rules = what is installed before the connection; each request's ops_after run after its response"}
         conn = res["connections"][0]
         # --- accept step: one lookup, found iff a record was injected; the record is consumed
         want_trace = [{"ev": "lookup", "port": conn["local_port"], "found": case["record"] is not None}]
@@ -488,23 +571,28 @@ def run(ctx):
             cls = (rq["class"], case["record"] is not None, dest if dest in ENDPOINT_OF or dest == e2e.SELF else "default", kind, status)
             outcome_classes[cls] = outcome_classes.get(cls, 0) + 1
             if not (kind == 0 and status == 421 and case["record"] is None):
-                nontrivial.add((rq["method"], rq["target"], repr(case["record"]), repr(case["rules"])))
+                nontrivial.add((rq["method"], rq["target"], repr(case["record"]), repr(rq["env"])))
             # ---- (c) the property itself, on the implementation's observation
             absolute, scheme, authority, path, query = split_target(rq["target"])
             attributed = case["record"] is not None
             elevated = attributed and case["record"]["is_admin"] == 1
-            item = case["rules"].get(ENDPOINT_OF.get(dest, ""), None) if attributed else None
-            authorized = attributed and py_authorized(dest, elevated, item, path, query, case["claims"])
+            st = rq["env"]                                   # rules / actors as they were when this request was sent
+            item = st["rules"].get(ENDPOINT_OF.get(dest, ""), None) if attributed else None
+            lookup_failed = attributed and st["kk_dead"] and dest in ENDPOINT_OF
+            counter_failed = st["as_dead"]
+            authorized = attributed and not lookup_failed and py_authorized(dest, elevated, item, path, query, case["claims"])
             traversal = ".." in path
             is_prov = (not absolute) and path == "/provision" and query in (None, "")
-            allowed = attributed and authorized and not traversal and not is_prov
+            allowed = attributed and authorized and not traversal and not is_prov and not counter_failed
             if not allowed:
                 why = None
                 if ob["arrived"]:
-                    why = "request reached %s although it is %s" % (
-                        ob["arrived"], "not attributed" if not attributed else "a '..' path" if traversal else
-                        "the local /provision query" if is_prov else "not authorized by the policy in force")
-                elif is_prov and not traversal:
+                    why = "request reached %s although %s" % (
+                        ob["arrived"], "it is not attributed" if not attributed else "its path has '..'" if traversal else
+                        "it is the local /provision query" if is_prov else "the connection counter failed" if counter_failed else
+                        "the policy lookup failed (key keeper dead)" if lookup_failed else
+                        "it is not authorized by the policy in force when it was sent")
+                elif is_prov and not traversal and not counter_failed:
                     if ob["status"] not in (200, 400):
                         why = "/provision answered with %s" % ob["status"]
                 elif ob["status"] not in LISTED:
@@ -520,6 +608,8 @@ def run(ctx):
                                      "impl": {"status": ob["status"], "arrived": ob["arrived"]}})
         # --- summaries (C11 looks closer; here: the counts the model's effects predict) and the derived claims
         sm = res["summary"]
+        if case["counter_dead"]:
+            continue            # the summaries died with the agent-status actor
         got_counts = (sum(s["count"] for s in sm["failed"]), sum(s["count"] for s in sm["ok"]))
         if got_counts != (n_failed_fx, n_ok_fx) and case["proxy_port"] != 3080:
             disagreements.append({"case": brief, "model": {"failed_summaries": n_failed_fx, "summaries": n_ok_fx},
@@ -542,8 +632,10 @@ def run(ctx):
                 "two addresses where nothing listens} x caller {uid 0 / 65534 / unknown uid, is_admin 1/0/2/-1, two processes} x per-endpoint rule "
                 "document {absent, three modes incl. odd spellings, both defaults, missing sections, privileges by path and query, identities by "
                 "user/group/process/exe, undefined references} x request target {plain, '..' in path, '..' only in query, /provision-like, "
-                "percent-escapes, upper case, absolute-form, signature-exempt} x method/body; 1-3 requests per connection; plus %d hand-made corner "
-                "connections incl. the listener as its own destination (port 3080). non-trivial = anything but a 421 on a direct connection, "
+                "percent-escapes, upper case, absolute-form, signature-exempt} x method/body; 1-3 requests per keep-alive connection with, between "
+                "requests, a rule change for an endpoint / the key-keeper actor killed (rules lookup failure) / the agent-status actor killed "
+                "(counter failure); plus %d hand-made corner connections: policy flips mid-connection, lookup and counter failures per destination, "
+                "every signature-exempt (method, url) pair of should_skip_sig in 4 spellings x 8 callers, the listener as its own destination (port 3080). non-trivial = anything but a 421 on a direct connection, "
                 "distinct by (method, target, record, rules)" % len(fixed),
         "exhaustive": False,
         "samples": [
